@@ -28,6 +28,10 @@ class Regime:
         self.kind = kind
         # ids of entities that were joined as raw arrays WITHOUT a name argument: the library documents a None placeholder
         self.unnamed = {a: set() for a in AXES}
+        # group labels are an increasing affine image (scale, offset) of the raw group number: -1 / negative "unknown family"
+        # labels, labels with gaps (1, 3, 5), large labels; the order of groups is unchanged by construction
+        self.tgrp = (1, 0)
+        self.cgrp = (1, 0)
 
     def labels(self, axis, ids):
         d = self._labels(axis, ids)
@@ -43,12 +47,12 @@ class Regime:
         k = (lambda i: i % 3) if self.kind == "dup" else (lambda i: i)
         if axis == "taxa":
             d = dict(taxa=numpy.array(["T%03d" % k(i) for i in ids], dtype=object),
-                     taxa_grp=numpy.array([(i * 7) % 4 + (4 if i >= LATE_TAXA else 0) for i in ids], dtype="int64"))
+                     taxa_grp=numpy.array([self.tgrp[0] * ((i * 7) % 4 + (4 if i >= LATE_TAXA else 0)) + self.tgrp[1] for i in ids], dtype="int64"))
             if self.kind == "absent":
                 d["taxa_grp"] = None
             return d
         if axis == "vrnt":
-            d = dict(vrnt_chrgrp=(ids % 3 + 1).astype("int64"), vrnt_phypos=(ids * 13 % 997 + 1 + numpy.where(ids >= BIGPOS_FROM, BIGPOS, 0) + numpy.where(ids >= HUGEPOS_FROM, HUGEPOS, 0)).astype("int64"),
+            d = dict(vrnt_chrgrp=(self.cgrp[0] * (ids % 3 + 1) + self.cgrp[1]).astype("int64"), vrnt_phypos=(ids * 13 % 997 + 1 + numpy.where(ids >= BIGPOS_FROM, BIGPOS, 0) + numpy.where(ids >= HUGEPOS_FROM, HUGEPOS, 0)).astype("int64"),
                      vrnt_name=numpy.array(["V%03d" % k(i) for i in ids], dtype=object), vrnt_genpos=ids * 0.01,
                      vrnt_xoprob=(ids % 7) / 14.0, vrnt_hapgrp=(ids % 5).astype("int64"),
                      vrnt_hapalt=numpy.array(["A%d" % (i % 4) for i in ids], dtype=object),
@@ -65,9 +69,9 @@ class Regime:
         """Default sort key of the library: taxa -> (taxa_grp, taxa); vrnt -> (chrgrp, phypos); trait -> (trait,)"""
         k = (i % 3) if self.kind == "dup" else i
         if axis == "taxa":
-            return (("T%03d" % k),) if self.kind == "absent" else ((i * 7) % 4 + (4 if i >= LATE_TAXA else 0), "T%03d" % k)
+            return (("T%03d" % k),) if self.kind == "absent" else (self.tgrp[0] * ((i * 7) % 4 + (4 if i >= LATE_TAXA else 0)) + self.tgrp[1], "T%03d" % k)
         if axis == "vrnt":
-            return (i % 3 + 1, i * 13 % 997 + 1 + (BIGPOS if i >= BIGPOS_FROM else 0) + (HUGEPOS if i >= HUGEPOS_FROM else 0))
+            return (self.cgrp[0] * (i % 3 + 1) + self.cgrp[1], i * 13 % 997 + 1 + (BIGPOS if i >= BIGPOS_FROM else 0) + (HUGEPOS if i >= HUGEPOS_FROM else 0))
         return ("Y%02d" % k,)
 
 
